@@ -1,7 +1,7 @@
 (* Props_C03.v — property theorems for C03 (only statements closed by [exact]). *)
 From Coq Require Import List String Bool Arith.
 Import ListNotations.
-From HolpyV Require Import Kernel KernelLemmas Sem SemLemmas TermOrd TermOrdSound SubstSound.
+From HolpyV Require Import Kernel KernelLemmas Sem SemLemmas TermOrd TermOrdSound SubstSound TyMatch SoundSubst.
 
 (* ---- equality -------------------------------------------------------- *)
 (* Term.__eq__ (model tm_eqb) holds exactly when the two terms are identical
@@ -114,9 +114,25 @@ Theorem C03_beta_norm_sound : forall DC thT thS IC sigV sigS,
 Proof. exact beta_norm_sound. Qed.
 Print Assumptions C03_beta_norm_sound.
 
-(* PARTIAL: term instantiation (Term.subst with an Inst) has no denotation
-   theorem in this build; it is decided by correspondence with the model and by
-   finite-model evaluation of (%x. t) u = t[u/x]. *)
+(* Term.subst with an Inst (repaired model: closed replacements, var_inst at the
+   variable's type): the instantiated term denotes what the term denotes when
+   every instantiated schematic type variable stands for its type and every
+   instantiated (schematic) variable for the value of its replacement.
+   Side conditions: arity discipline on the matched types (Type.match_incr zips
+   argument lists), and the result passes checked_get_type. *)
+Theorem C03_term_subst_denotation : forall DC thT thS IC sigV sigS,
+  ic_ok DC IC -> val_ok DC thT thS sigV -> val_ok DC thT thS sigS ->
+  forall ar I s c r s' bd T env,
+  (forall n U, In (n, U) (svars_of c) -> ty_wf ar U = true) -> repl_types_wf ar (i_sv I) ->
+  tm_subst true true I s c = Some (r, s') ->
+  checked_get_type_rec r bd = Some T ->
+  extends s s' /\
+  eval DC thT thS IC sigV sigS env r =
+  eval DC thT (thS_subst thT thS s') IC
+       (fun n U => pick DC thT thS IC sigV sigS (i_var I) sigV n (ty_subst s' U))
+       (fun n U => pick DC thT thS IC sigV sigS (i_sv I) sigS n (ty_subst s' U)) env c.
+Proof. exact tm_subst_sem. Qed.
+Print Assumptions C03_term_subst_denotation.
 
 (* non-vacuity: a concrete capture-prone instance, evaluated *)
 Example C03_example_no_capture :
